@@ -79,7 +79,7 @@ def _all_lines(events):
                 yield from _all_lines(a.events)
 
 
-@rule("C07.calling-uri", min_instances=10)
+@rule("C07.calling-uri", min_instances=10, props=["C09"])
 def calling_uri(ctx):
     """every emitted include / inherit / namespace construction passes _template_uri as the calling URI, the run-time API passes the namespace's own template URI, and every receiver of a calling_uri parameter uses it"""
     db = ctx.db
